@@ -113,7 +113,9 @@ class Run:
                       f"(witness {f['witness']}; {n} listed inputs reproduced)")
         os.makedirs(os.path.join(REPLAY_DIR, pid), exist_ok=True)
         shown = 0
-        for rec in new:
+        for n_written, rec in enumerate(new):
+            if n_written >= 400:
+                break          # disk is finite: the first 400 violations get a replay file, the rest are counted below
             path = os.path.join(REPLAY_DIR, pid, sha(rec['key']) + '.json')
             rec = dict(rec, property=pid, tier=self.tier)
             with open(path, 'w', encoding='utf-8') as fh:
@@ -123,7 +125,7 @@ class Run:
                 print(f"  {rec['what']}"[:400])
                 shown += 1
         if len(new) > shown:
-            print(f"... and {len(new) - shown} more violations of {pid} (replay files written)")
+            print(f"... and {len(new) - shown} more violations of {pid} (replay files written for the first {min(len(new), 400)})")
         cov = dict(coverage)
         cov.setdefault('samples', self.samples or ['(none)'])
         cov['counters'] = dict(sorted(self.counters.items()))
